@@ -23,7 +23,7 @@ func init() {
 var distAggrs = []string{"sum", "min", "max", "count", "group", "avg", "stddev", "topk(2,", "bottomk(1,", "quantile(0.5,"}
 
 func GenDist(t *testing.T, r *rand.Rand, prop, tier string, _ *atomic.Int64) *Case {
-	profile := []string{"aggr", "compose", "binary", "rangefn", "func"}[r.Intn(5)]
+	profile := []string{"aggr", "compose", "binary", "rangefn", "func", "fallback"}[r.Intn(6)]
 	w, q, data, el, _, _ := GenQuery(r, profile, 0, 0.35)
 	if r.Intn(3) == 0 {
 		// a distributable aggregation at a chosen position of a larger expression
